@@ -24,6 +24,7 @@ pub const S_PLUS_KL: u8 = 6;
 pub const S_OTHER_KEY: u8 = 7;
 pub const S_OTHER_SIG: u8 = 8;
 pub const S_TORSION: u8 = 9;
+pub const S_TORSION_NONCANONICAL_R: u8 = 10;
 const KINDS: &[&str] = &[
     "deliver_untouched",
     "flip_signature_bit",
@@ -35,6 +36,15 @@ const KINDS: &[&str] = &[
     "substitute_other_signers_key",
     "substitute_other_messages_signature",
     "small_order_key_forgery",
+    "small_order_key_forgery_with_noncanonical_r",
+];
+
+/// encodings that decode to the identity but are not its canonical 32 bytes:
+/// y = p + 1, x = 0 with the sign bit set, and both
+pub const NONCANONICAL_IDENTITY: [[u8; 32]; 3] = [
+    [0xee, 0xff, 0xff, 0xff, 0xff, 0xff, 0xff, 0xff, 0xff, 0xff, 0xff, 0xff, 0xff, 0xff, 0xff, 0xff, 0xff, 0xff, 0xff, 0xff, 0xff, 0xff, 0xff, 0xff, 0xff, 0xff, 0xff, 0xff, 0xff, 0xff, 0xff, 0x7f],
+    [1, 0, 0, 0, 0, 0, 0, 0, 0, 0, 0, 0, 0, 0, 0, 0, 0, 0, 0, 0, 0, 0, 0, 0, 0, 0, 0, 0, 0, 0, 0, 0x80],
+    [0xee, 0xff, 0xff, 0xff, 0xff, 0xff, 0xff, 0xff, 0xff, 0xff, 0xff, 0xff, 0xff, 0xff, 0xff, 0xff, 0xff, 0xff, 0xff, 0xff, 0xff, 0xff, 0xff, 0xff, 0xff, 0xff, 0xff, 0xff, 0xff, 0xff, 0xff, 0xff],
 ];
 
 /// canonical encodings of the 8 points of order dividing 8 (identity, order 2, 2 x order 4, 4 x order 8)
@@ -77,7 +87,12 @@ pub fn honest(seed: &[u8; 32], msg: &[u8], extended: bool) -> ([u8; 32], [u8; 64
 /// first message (of <= 512 candidates) for which both h = 0 mod 8 and (h mod L) = 0 mod 8,
 /// with R = enc(identity), so that h*A = O for a torsion A under either reading of "h"
 pub fn torsion_message(key: &[u8; 32], mseed: u64) -> Option<Vec<u8>> {
-    let r = TORSION[0];
+    torsion_message_r(&TORSION[0], key, mseed)
+}
+
+/// same search with an arbitrary 32-byte R in the hashed prefix
+pub fn torsion_message_r(r: &[u8; 32], key: &[u8; 32], mseed: u64) -> Option<Vec<u8>> {
+    let r = *r;
     for i in 0..512u64 {
         let m = data(crate::rng::splitmix64(mseed ^ i.wrapping_mul(0x9E3779B97F4A7C15)) | 16, 16);
         let mut pre = Vec::with_capacity(80);
@@ -126,6 +141,12 @@ impl SigChannel {
         ops.push(Op::new(0, S_OTHER_SIG).seed(rng.data_seed()));
         for j in 0..8 {
             ops.push(Op::new(0, S_TORSION).arg(j).seed(rng.data_seed()));
+        }
+        // R given as a non-canonical encoding of the point the equation yields: byte equality must fail
+        for j in 0..8u64 {
+            for e in 0..3u64 {
+                ops.push(Op::new(0, S_TORSION_NONCANONICAL_R).arg(j + 8 * e).seed(rng.data_seed()));
+            }
         }
         ops
     }
@@ -234,6 +255,24 @@ impl Scenario for SigChannel {
                     want = p != [0u8; 32];
                     obs.hit(if want { "fault.byzantine_small_order_forgery_must_accept" } else { "fault.byzantine_all_zero_key_must_reject" });
                 }
+                S_TORSION_NONCANONICAL_R => {
+                    let j = (op.arg % 8) as usize;
+                    let e = ((op.arg / 8) % 3) as usize;
+                    p = TORSION[j];
+                    let r = NONCANONICAL_IDENTITY[e];
+                    match torsion_message_r(&r, &p, op.seed) {
+                        Some(tm) => m = tm,
+                        None => {
+                            obs.hit("skipped.no_torsion_message_in_512_tries");
+                            continue;
+                        }
+                    }
+                    // S*B - h*A is the identity whatever the reading of h; its encoding is 01 00..00, not these bytes
+                    s = [0u8; 64];
+                    s[..32].copy_from_slice(&r);
+                    want = false;
+                    obs.hit("fault.byzantine_noncanonical_r_must_reject");
+                }
                 _ => continue,
             }
             obs.begin_op(i);
@@ -246,6 +285,7 @@ impl Scenario for SigChannel {
                 S_PLUS_KL => "fault.s_plus_kL",
                 S_OTHER_KEY => "fault.other_signers_key",
                 S_OTHER_SIG => "fault.other_messages_signature",
+                S_TORSION_NONCANONICAL_R => "fault.byzantine_small_order_key_noncanonical_r",
                 _ => "fault.byzantine_small_order_key",
             });
             obs.cov(((op.k as u32) << 4) | (lenc << 1) | want as u32);
